@@ -284,6 +284,59 @@ def unpack_case(rng, advtree, nodes, TreeCleaner):
     return req, real, why, spec
 
 
+def columns_case(rng, advtree, nodes, TreeCleaner):
+    """a table of captions and rows of 0-3 cells under an article, laid out column by column by the real
+    `_remove_table_and_linearize_columns`.  -> (request line, real reply, None | violation text, spec)"""
+    art = advtree.Article()
+    table = advtree.Table()
+    art.append_child(table)
+    k = [0]
+
+    def leafs(parent, n):
+        ids = []
+        for _ in range(n):
+            node = advtree.Text("w%d" % k[0]) if rng.random() < 0.6 else advtree.Paragraph()
+            node._vid = k[0]
+            ids.append(k[0])
+            k[0] += 1
+            parent.append_child(node)
+        return ids
+
+    spec = []
+    for _ in range(rng.randint(1, 4)):
+        if rng.random() < 0.25:
+            cap = nodes.Caption()
+            spec.append(("C", leafs(cap, rng.randint(0, 3))))
+            table.append_child(cap)
+        else:
+            row = advtree.Row()
+            cells = []
+            for _ in range(rng.choice([1, 2, 2, 3, 0])):
+                cell = advtree.Cell()
+                cells.append(leafs(cell, rng.randint(0, 3)))
+                row.append_child(cell)
+            spec.append(("R", cells))
+            table.append_child(row)
+    fields = []
+    for kind, x in spec:
+        if kind == "C":
+            fields.append("C " + " ".join(map(str, x)))
+        else:
+            fields.append("R")
+            fields += ["c " + " ".join(map(str, c)) for c in x]
+    req = "columns %d;%s" % (table.numcols, ";".join(fields))
+    TreeCleaner(art, save_reports=False)._remove_table_and_linearize_columns(table)
+    got = [getattr(ch, "_vid", type(ch).__name__) for ch in art.children]
+    real = " ".join(map(str, got))
+    why = None
+    flat = [i for kind, x in spec for i in (x if kind == "C" else [j for c in x for j in c])]
+    if any(ch.parent is not art for ch in art.children):
+        why = "a node that replaced the table has a parent link to something else"
+    elif sorted(map(str, got)) != sorted(map(str, flat)):
+        why = f"the table's content {flat} became {got}"
+    return req, real, why, spec
+
+
 def split_worker(items, extra, progress):
     """the real treecleanerhelper.split_row vs Model.splitRow: rows of 1-4 cells with 0-6 children of random estimated height."""
     import logging
@@ -305,14 +358,16 @@ def split_worker(items, extra, progress):
     for i, seed in enumerate(items):
         progress(i)
         if isinstance(seed, (tuple, list)):       # ("unpack", seed): a one-column table taken apart
+            case, what = (columns_case, "split_table_to_columns (column by column)") if seed[0] == "columns" else \
+                (unpack_case, "transform_single_col_tables (unpacking)")
             try:
-                req, real, why, spec = unpack_case(random.Random(seed[1]), advtree, nodes, TreeCleaner)
+                req, real, why, spec = case(random.Random(seed[1]), advtree, nodes, TreeCleaner)
             except Exception as e:  # noqa: BLE001
-                viol.append({"why": f"taking a one-column table apart raised {type(e).__name__}: {e}", "text": repr(seed)})
+                viol.append({"why": f"{what} raised {type(e).__name__}: {e}", "text": repr(seed)})
                 continue
             if why:
-                viol.append({"why": "transform_single_col_tables (unpacking): " + why, "text": repr(spec)})
-            hist["tables-unpacked"] += 1
+                viol.append({"why": what + ": " + why, "text": repr(spec)})
+            hist["tables-unpacked" if seed[0] == "unpack" else "tables-laid-out-by-column"] += 1
             reqs.append(req)
             meta.append((spec, real))
             continue
@@ -388,7 +443,8 @@ def run(chk: common.Check):
         "hand-written model lean/MwVerif/Model/SplitRow.lean of treecleanerhelper.split_row (heights abstract: get_node_height is run for real "
         "and its values, scaled to integers exactly, are given to the model), tied by correspondence on random rows",
         "hand-written model lean/MwVerif/Model/SingleCol.lean of how transform_single_col_tables takes a table apart (_wrap_or_append_cell_items, "
-        "_replace_child_based_on_div_wrapper; the decision WHETHER to take it apart is not modelled), tied by correspondence on random tables "
+        "_replace_child_based_on_div_wrapper) and of how split_table_to_columns lays one out column by column "
+        "(_remove_table_and_linearize_columns); the decisions WHETHER to do so are not modelled; tied by correspondence on random tables "
         "of captions and rows",
         "NOT a theorem: that each pass dissolves/removes only textless nodes and moves nodes without reordering text - checked by the "
         "word/ancestor oracle on the real cleaner over the document grammar",
@@ -418,6 +474,7 @@ def run(chk: common.Check):
     })
     sitems = [chk.seed * 10_000_000 + 7_500_000 + i for i in range(20000 if tier == "thorough" else 3000)]
     sitems += [("unpack", chk.seed * 10_000_000 + 7_800_000 + i) for i in range(20000 if tier == "thorough" else 3000)]
+    sitems += [("columns", chk.seed * 10_000_000 + 7_900_000 + i) for i in range(20000 if tier == "thorough" else 3000)]
     r3, c3 = guard.guarded_run(str(chk.mkscratch()), "harness.c07:split_worker", sitems, nproc=8, hard_timeout=120)
     sdiffs, shist = [], Counter()
     for d, v, h in r3:
@@ -427,7 +484,7 @@ def run(chk: common.Check):
             bad.append({"text": x["text"], "why": x["why"]})
     for item, kind, detail in c3:
         bad.append({"seed": item, "text": "", "why": f"{kind}: {detail} (split_row)"})
-    chk.coverage.update({"traces_validated_against_impl": shist.get("rows-split", 0) + shist.get("tables-unpacked", 0), "correspondence_differences": len(sdiffs),
+    chk.coverage.update({"traces_validated_against_impl": shist.get("rows-split", 0) + shist.get("tables-unpacked", 0) + shist.get("tables-laid-out-by-column", 0), "correspondence_differences": len(sdiffs),
                          "split_row_histogram": dict(shist)})
     corpus = common.ROOT / "corpus" / "C07" / "known.json"
     if corpus.exists():
